@@ -117,6 +117,9 @@ func (tm *typesMap) SetFuncName(funcName string, typs ...types.Type) (string, er
 	}
 	tm.funcToTyps[funcName] = typs
 	tm.typss = append(tm.typss, typs)
+	// reserved is shared by all plugins: when one plugin's prefix is a prefix of another's,
+	// newName must not mint a name that the other plugin already uses.
+	tm.reserved[funcName] = struct{}{}
 	return funcName, nil
 }
 
